@@ -62,6 +62,9 @@ def gen_import(rnd):
             parts.insert(rnd.randint(0, len(parts)), f"{n} as {extra}")
             used_locals.add(extra)
     style = rnd.random()
+    if rnd.random() < .12:
+        # a RELATIVE import whose module path spells a v1 package: not an import of a v1 name, must be left alone
+        mod = rnd.choice([".", ".."]) + mod
     if style < .5 or len(parts) == 1:
         return f"from {mod} import " + ", ".join(parts)
     if style < .8:
